@@ -278,7 +278,8 @@ class PercentFormatString:
         needs_mapping = self.needs_mapping()
         for cs in self.specifiers:
             yield from cs.lint()
-            if needs_mapping:
+            # "%%" takes no argument, so it can be combined with either kind
+            if needs_mapping and cs.conversion_type != "%":
                 if (
                     cs.mapping_key is None
                     or cs.precision == "*"
